@@ -52,8 +52,15 @@ class Harness:
                 h.sent.extend(msgs)
 
         class Conn:
+            """peer connection of a reply; with a gate its close suspends (a slow close)"""
+
+            def __init__(self, gate=None):
+                self.gate = gate
+
             async def disconnect(self, reason=None):
                 h.disconnects += 1
+                if self.gate is not None:
+                    await self.gate
 
         self.sent = []
         self.disconnects = 0
@@ -65,6 +72,8 @@ class Harness:
         self.nerr = 0
         self.reply_id = 0
         self.tracked = {}
+        self.pending = []       # reply handlers suspended in connection.disconnect(): (coroutine, gate)
+        self.Conn = Conn
 
         def on_sent(e):
             r = e.query
@@ -174,6 +183,44 @@ class Harness:
             self.atomic(self.bus.emit, MessageReceivedEvent(msg, self.conn))
             if self.disconnects != d0 + 1:
                 extra.append(('other', 'reply handler did not close the connection'))
+        elif k == 'Rs':
+            # a reply whose connection closes slowly: the handler runs up to its suspension in disconnect()
+            self.reply_id += 1
+            msg = PeerSearchReply.Request(username='peer', ticket=op[1], results=[], has_slots_free=True,
+                                          avg_speed=self.reply_id, queue_size=0, locked_results=[])
+            gate = self.loop.create_future()
+            coro = self.bus.emit(MessageReceivedEvent(msg, self.Conn(gate)))
+            asyncio.events._set_running_loop(self.loop)
+            try:
+                coro.send(None)
+                self.pending.append((coro, gate))
+            except StopIteration:
+                extra.append(('other', 'reply handler never closed the connection'))
+            finally:
+                asyncio.events._set_running_loop(None)
+        elif k == 'Rf':
+            # the slow close completes: the rest of the oldest suspended reply handler runs
+            if self.pending:
+                coro, gate = self.pending.pop(0)
+                asyncio.events._set_running_loop(self.loop)
+                try:
+                    gate.set_result(None)
+                    coro.send(None)
+                    coro.close()
+                    extra.append(('other', 'reply handler suspended a second time'))
+                except StopIteration:
+                    pass
+                finally:
+                    asyncio.events._set_running_loop(None)
+        elif k == 'L':
+            # the server session is destroyed and initialized again (reconnect + login)
+            from aioslsk.events import SessionDestroyedEvent, SessionInitializedEvent
+            from aioslsk.session import Session
+            from aioslsk.user.model import User
+            sess = Session(user=User('me'), ip_address='1.2.3.4', greeting='hi', client_version=157, minor_version=100)
+            if op[1]:
+                self.atomic(self.bus.emit, SessionDestroyedEvent(sess))
+            self.atomic(self.bus.emit, SessionInitializedEvent(sess, None))
         elif k == 'X':
             try:
                 arg = self.reqs[op[1]] if (op[1] in self.reqs and op[2]) else op[1]
@@ -231,6 +278,7 @@ def gen_ops(rng, n):
     """Histories.  Tickets are deterministic (k-th issue = k+1), so ops name tickets literally."""
     ops = []
     issued = 0
+    pending = [0]
 
     def some_ticket():
         r = rng.random()
@@ -246,7 +294,7 @@ def gen_ops(rng, n):
             tk = rng.randrange(2, issued + 2)
             ops.append(['settle'])
             ops.append(['lag', rng.choice([1, 2, 3, 5])])
-            acts = [['X', tk, rng.random() < 0.5], ['R', tk], ['settle'], ['C', tk], ['T', tk, rng.choice([None, 0, 2])], ['R', tk]]
+            acts = [['X', tk, rng.random() < 0.5], ['R', tk], ['settle'], ['C', tk], ['T', tk, rng.choice([None, 0, 2])], ['Rs', tk], ['Rf']]
             rng.shuffle(acts)
             ops.extend(acts[:rng.randrange(2, 6)])
             continue
@@ -262,8 +310,17 @@ def gen_ops(rng, n):
         elif r < 0.33:
             ops.append(['A'])
             issued += 1
-        elif r < 0.50:
+        elif r < 0.44:
             ops.append(['R', some_ticket()])
+        elif r < 0.48:
+            ops.append(['Rs', some_ticket()])
+            pending[0] += 1
+        elif r < 0.49:
+            if pending[0]:
+                ops.append(['Rf'])
+                pending[0] -= 1
+        elif r < 0.50:
+            ops.append(['L', rng.random() < 0.7])
         elif r < 0.60:
             ops.append(['X', some_ticket(), rng.random() < 0.5])
         elif r < 0.67:
@@ -277,6 +334,7 @@ def gen_ops(rng, n):
         else:
             ops.append(['settle'])
             ops.append(['lag', rng.choice([1, 2, 5])])
+    ops.extend([['Rf']] * pending[0])
     ops.append(['run', 2000])
     return ops
 
@@ -290,6 +348,12 @@ def directed_histories():
             for k in (1, 2, 3):
                 for seq in itertools.permutations(acts, k):
                     out.append([['S', 'net', tau]] + pre + [list(a) for a in seq] + [['run', 50], ['R', 2], ['run', 50]])
+    for mid in ([['X', 2, False]], [['run', 3]], [['settle'], ['lag', 3], ['settle']], [['C', 2]], [['T', 2, 1], ['run', 1]], []):
+        out.append([['S', 'net', 3], ['Rs', 2]] + [list(a) for a in mid] + [['Rf'], ['run', 50]])
+        out.append([['S', 'net', 0], ['Rs', 2], ['Rs', 2]] + [list(a) for a in mid] + [['Rf'], ['R', 2], ['Rf'], ['run', 50]])
+    for tau in (0, 5):
+        for destroy in (True, False):
+            out.append([['S', 'net', tau], ['S', 'user', tau], ['L', destroy], ['S', 'net', tau], ['R', 2], ['R', 3], ['run', 2], ['S', 'room', 3], ['R', 2], ['run', 50], ['R', 4], ['R', 2]])
     return out
 
 
@@ -313,7 +377,7 @@ def monitor(ops, obs):
     for op, o in zip(ops, obs):
         now_before = None
         k = op[0]
-        tk = op[1] if len(op) > 1 and k in 'RXCT' else None
+        tk = op[1] if len(op) > 1 and k in ('R', 'Rs', 'X', 'C', 'T') else None
         was_live = set(live)
         if k == 'lag':
             lag = True
@@ -334,7 +398,7 @@ def monitor(ops, obs):
                     ran_since_start[t] = False
             elif e[0] == 'result':
                 _, t, rid, rt = e
-                if not (k == 'R' and t == op[1] and rt == t and t in was_live):
+                if not (k in ('R', 'Rs') and t == op[1] and rt == t and t in was_live):
                     shape = 'after-manual-removal' if t in manual else ('after-timeout' if removed_ev.get(t) else 'unknown-ticket')
                     viol.append(('result-for-dead-request:' + shape, f'SearchResultEvent for ticket {t} which is not a live request', {}))
             elif e[0] == 'removed':
@@ -369,9 +433,9 @@ def monitor(ops, obs):
                     viol.append(('remove-live-failed', f'remove_request({e[1]}) raised for a live request', {}))
             elif e[0] == 'other':
                 viol.append(('unexpected-error', str(e[1]), {}))
-        if k == 'R' and op[1] in was_live and not any(e[0] == 'result' and e[1] == op[1] for e in o['new']):
+        if k in ('R', 'Rs') and op[1] in was_live and not any(e[0] == 'result' and e[1] == op[1] for e in o['new']):
             viol.append(('result-lost', f'reply for live ticket {op[1]} produced no SearchResultEvent', {}))
-        if k in 'CT' and tk in sent and sent[tk][1] > 0:
+        if k in ('C', 'T') and tk in sent and sent[tk][1] > 0:
             timer_ops.setdefault(tk, []).append((k, o['now'], op[2] if k == 'T' else None, ran_since_start.get(tk, True)))
             if k == 'C':
                 deadline[tk] = None
@@ -438,6 +502,8 @@ def z(n):
 
 def ev_coq(op):
     k = op[0]
+    if k in ('Rf', 'L'):
+        return []
     if k == 'S':
         return [f'OEv (Search {z(op[2])})']
     if k == 'A':
@@ -520,7 +586,7 @@ def coq_cases(cases, start):
     for idx, (ops, obs) in enumerate(cases):
         steps = []
         for op, o in zip(ops, obs):
-            if op[0] == 'R':
+            if op[0] in ('R', 'Rs'):
                 rid = next((e[2] for e in o['new'] if e[0] == 'result'), None)
                 # reply ids are the running reply counter of the harness
                 evs = [f'OEv (Reply {z(op[1])} {o["rid"]})']
@@ -541,7 +607,7 @@ def coq_cases(cases, start):
 def annotate_rids(ops, obs):
     rid = 0
     for op, o in zip(ops, obs):
-        if op[0] == 'R':
+        if op[0] in ('R', 'Rs'):
             rid += 1
             o['rid'] = rid
 
@@ -652,8 +718,10 @@ def run(run: Run):
     nrand = 350 if run.tier == 'quick' else 3000
     hist = directed_histories()
     if run.tier == 'quick':
-        run.rng.shuffle(hist)
-        hist = hist[:250]
+        keep = [h for h in hist if any(op[0] in ('Rs', 'L') for op in h)]
+        rest = [h for h in hist if not any(op[0] in ('Rs', 'L') for op in h)]
+        run.rng.shuffle(rest)
+        hist = keep + rest[:230]
     for i in range(nrand):
         hist.append(gen_ops(run.rng, run.rng.randrange(3, 28 if run.tier == 'quick' else 45)))
     for ops in hist:
@@ -670,7 +738,7 @@ def run(run: Run):
             continue
         annotate_rids(ops, obs)
         allnew = [e for o in obs for e in o['new']]
-        nt = (any(e[0] in ('removed', 'errkey') for e in allnew) or any(op[0] == 'C' for op in ops)) and any(op[0] == 'R' for op in ops)
+        nt = (any(e[0] in ('removed', 'errkey') for e in allnew) or any(op[0] == 'C' for op in ops)) and any(op[0] in ('R', 'Rs') for op in ops)
         run.case(ops, nontrivial=nt, kind=f'len<{(len(ops)//10+1)*10}')
         for e in allnew:
             run.count('obs:' + e[0])
